@@ -367,7 +367,10 @@ class FnView:
             if ck == 'UnresolvedLookupExpr':
                 return ('call', c.get('name', '?'), args)
             if ck == 'DeclRefExpr':
-                name = c.get('referencedDecl', {}).get('name', '?')
+                rd = c.get('referencedDecl', {})
+                name = rd.get('name', '?')
+                if rd.get('kind') == 'ParmVarDecl' and rd.get('id') in self.pidx:
+                    return ('pcall', ('p', self.pidx[rd['id']]), args)      # call of a callable parameter
                 if q:
                     self.callees.append((name, q, n))
                 return ('call', name, args)
@@ -412,6 +415,16 @@ class FnView:
             if ks:
                 return ('traitof', n.get('name', '?'), T(ks[0]))
             return ('traitof', n.get('name', '?'), ('type', tkey((n.get('argType') or {}).get('qualType'))))
+        if k == 'LambdaExpr':
+            g = tu.functions.get(tu.sd(n).get('op'))
+            if g is not None and tu.body(g) is not None:
+                lv = FnView(tu, g)
+                lb = lv.body()
+                if len(lb) == 1 and lb[0][0] == 'ret' and lb[0][1] is not None and not unknowns(lb[0][1]):
+                    self.callees.extend(lv.callees)
+                    body = map_terms(lb[0][1], lambda x: ('lp', x[1]) if (x[0] == 'p' and len(x) == 2 and isinstance(x[1], int)) else x)
+                    return ('lambda', len(g['params']), body)
+            return ('?', 'LambdaExpr')
         if k == 'CXXDefaultArgExpr':
             return ('defarg',)
         if k == 'CXXDefaultInitExpr':
@@ -1045,7 +1058,7 @@ class Inliner:
     def _is_helper(self, g):
         return g['id'] != self.f['id'] and bool(self.pred(g))
 
-    def lookup(self, name, nargs, member):
+    def lookup(self, name, nargs, member, args=None):
         tu = self.tu
         for nm, q, node in self.v.callees:
             if nm == name:
@@ -1061,6 +1074,26 @@ class Inliner:
             d = tu.node(g['id']) or {}
             if (d.get('name') or g['q'].split('::')[-1]) == name and self._is_helper(g):
                 cands.append(g)
+        if len(cands) > 1 and args is not None:
+            # overloads of the helper by vector shape: keep those whose vec_t parameters match the shapes of the arguments
+            def shape_of_arg(a):
+                if a[0] == 'p' and a[1] < len(self.f['params']):
+                    return vecshape(self.f['params'][a[1]]['ct'])
+                return None
+
+            def fits(g):
+                for prm, a in zip(g['params'], args):
+                    ps, as_ = vecshape(prm['ct']), shape_of_arg(a)
+                    if ps is None or as_ is None:
+                        continue
+                    if isinstance(ps['n'], int) and isinstance(as_['n'], int) and ps['n'] != as_['n']:
+                        return False
+                    if isinstance(ps['a'], bool) and isinstance(as_['a'], bool) and ps['a'] != as_['a']:
+                        return False
+                    if isinstance(ps['n'], int) != isinstance(as_['n'], int):
+                        return False
+                return True
+            cands = [g for g in cands if fits(g)]
         return cands[0] if len(cands) == 1 else None
 
     def expr(self, t, depth=0):
@@ -1069,7 +1102,7 @@ class Inliner:
 
         def f(x):
             if x[0] == 'call' and isinstance(x[1], str):
-                g = self.lookup(x[1], len(x[2]), False)
+                g = self.lookup(x[1], len(x[2]), False, x[2])
                 if g is not None:
                     hv = FnView(self.tu, g)
                     body = bool_of_stmts(list(hv.body()))
@@ -1077,7 +1110,7 @@ class Inliner:
                         self.used.add(g['id'])
                         self.used_names.add(x[1])
                         self.v.callees.extend(hv.callees)
-                        return self.expr(subst_params(body, x[2]), depth + 1)
+                        return self.expr(beta_reduce(subst_params(body, x[2])), depth + 1)
             return x
         return map_terms(t, f)
 
@@ -1160,6 +1193,20 @@ def ctor_fields(tu, f, v, pick_target, depth=0):
             return None, 'field %s initialised twice' % fld
         got[fld] = t
     return got, None
+
+
+def beta_reduce(t):
+    """apply lambdas that ended up in call position after a helper was inlined: f(args) with f = [](p...) { return body; }"""
+    def f(x):
+        lam = args = None
+        if x[0] == 'pcall' and x[1][0] == 'lambda':
+            lam, args = x[1], x[2]
+        elif x[0] == 'mcall' and x[1] == 'operator()' and x[2][0] == 'lambda':
+            lam, args = x[2], x[3]
+        if lam is not None and len(args) == lam[1]:
+            return map_terms(lam[2], lambda y: args[y[1]] if (y[0] == 'lp' and y[1] < len(args)) else y)
+        return x
+    return map_terms(t, f)
 
 
 def select_to_minmax(t):
